@@ -188,6 +188,8 @@ def install_bool_summaries(e, engine):
 
 def reset(e, bitlength=None, resolution=None):
     """fresh recorder and runtime state (between paths / harnesses)"""
+    if e.rt is None:
+        return
     rec = e.rec
     if hasattr(rec, "privvals"):
         rec.privvals.clear()
@@ -210,7 +212,7 @@ def reset(e, bitlength=None, resolution=None):
 def snapshot(e):
     """copy of what the recorder holds: (pubvals, privvals, constraints as 3 dicts var->coeff)"""
     rec = e.rec
-    if not hasattr(rec, "pubvals"):
+    if rec is None or not hasattr(rec, "pubvals"):
         return ([], [], [])            # file-based backend (qaptools): nothing recorded in memory
     return (list(rec.pubvals), list(rec.privvals),
             [[dict(c[0].lc), dict(c[1].lc), dict(c[2].lc)] for c in rec.constraints])
